@@ -27,8 +27,8 @@ class TrafficFilterConfig:
 
 @dataclass
 class FailSafeConfig:
-    cooldown_time: int = load_env_value(_ENV_FAIL_SAFE_ENTER_AFTER, int, 10)
-    max_errors: int = load_env_value(_ENV_FAIL_SAFE_EXIT_COOLDOWN_SEC, int, 5)
+    cooldown_time: int = load_env_value(_ENV_FAIL_SAFE_EXIT_COOLDOWN_SEC, int, 10)
+    max_errors: int = load_env_value(_ENV_FAIL_SAFE_ENTER_AFTER, int, 5)
 
 
 @dataclass
